@@ -356,7 +356,7 @@ def case_from_record(rec):
             **({'allow_tabledef': True} if rec.get('allow_tabledef') else {})}
 
 
-def run_stream_cases(ctx, cases, kind='stream-scan', enforce_expect=True, prop_note=''):
+def run_stream_cases(ctx, cases, kind='stream-scan', enforce_expect=True, prop_note='', classify=None):
     """Run cases on the implementation and on the extracted model.
 
     case: dict(stream=bytes, info_only, continue_on_error, filter=str|None,
@@ -417,9 +417,12 @@ def run_stream_cases(ctx, cases, kind='stream-scan', enforce_expect=True, prop_n
                          extra={'theorems': 'scan_exact scan_filter scan_continue_skips scan_stops_at_error '
                                             'non_library_error_escapes (coq/properties/C11.v) rest on this tie' + prop_note})
         if c.get('expect') is not None and enforce_expect and ok and not holds():
-            ctx.violation({'kind': c.get('kind', kind) + '-predicate', 'case': rec, 'impl': io_[:400],
-                           'expected_n': len(c['expect']), 'expect_err': c.get('expect_err')},
-                          'yielded messages differ from the constructed ones: %s' % c.get('name', ''))
+            vrec = {'kind': c.get('kind', kind) + '-predicate', 'case': rec, 'impl': io_[:400],
+                    'expected_n': len(c['expect']), 'expect_err': c.get('expect_err')}
+            if classify is not None:
+                # names the cause when the difference is exactly a recorded finding (never hides one)
+                vrec.update(classify(c, pieces, err) or {})
+            ctx.violation(vrec, 'yielded messages differ from the constructed ones: %s' % c.get('name', ''))
         if c.get('in_domain') and 'msgs' in c:
             # the theorems' hypotheses about the decoder, observed on this very stream: at every message start
             # the full decode consumes and declares len(m); the metadata-only decode declares len(m) and
